@@ -2425,6 +2425,33 @@ func ruleG9(c *Ctx, r *Report, scope map[*ssa.Function]bool) int {
 					}
 				}
 			}
+			// slice bounds s[lo:i+c] inside the loop: the (exclusive) upper bound i+c needs c-1 <= k
+			for _, b := range f.Blocks {
+				if !l.blocks[b] {
+					continue
+				}
+				for _, ins := range b.Instrs {
+					sl, ok := ins.(*ssa.Slice)
+					if !ok || sl.High == nil || !sameSSA(sl.X, s) {
+						continue
+					}
+					cOff, ok := off[sl.High]
+					if !ok {
+						continue
+					}
+					key := fmt.Sprintf("%s:%s[:i+%d] in %s", SSAFuncName(f), sliceText(c, f, sl.Pos()), cOff, loopText)
+					if seen[key] {
+						continue
+					}
+					seen[key] = true
+					n++
+					if lenGuarded(sl.High, s, sl.Block()) || cOff-1 <= k {
+						r.OK("G9", key, c.Pos(sl.Pos()), fmt.Sprintf("i < len-%d and the slice ends at i+%d", k, cOff))
+					} else {
+						r.Bad("G9", key, c.Pos(sl.Pos()), fmt.Sprintf("the loop runs while i < len-%d but the slice ends at i+%d: slice bounds out of range on the last, partial element", k, cOff))
+					}
+				}
+			}
 		}
 	}
 	return n
